@@ -49,8 +49,15 @@ def sparse_st(draw):
 
 def build(s):
     if s["kind"] == "dense":
-        return matrix([dec(s["tc"], v) for v in s["v"]], (s["m"], s["n"]), s["tc"])
-    return spmatrix([dec(s["tc"], v) for v in s["V"]], s["I"], s["J"], (s["m"], s["n"]), s["tc"])
+        X = matrix([dec(s["tc"], v) for v in s["v"]], (s["m"], s["n"]), s["tc"])
+    else:
+        X = spmatrix([dec(s["tc"], v) for v in s["V"]], s["I"], s["J"], (s["m"], s["n"]), s["tc"])
+    # the matrices the round trips start from are what was asked for (this constructor form is also the one that
+    # __reduce__ uses to rebuild a matrix, for empty matrices too)
+    if X.typecode != s["tc"] or X.size != (s["m"], s["n"]):
+        raise Violation("%s(values, size=%r, tc=%r) returned a %r matrix of size %r" % (
+            "matrix" if s["kind"] == "dense" else "spmatrix", (s["m"], s["n"]), s["tc"], X.typecode, X.size))
+    return X
 
 
 def snap(X):
